@@ -39,6 +39,7 @@ def run(ctx):
         ctx.guard(splitter, ctx, cfg, fs)
         import docwalk
         ctx.guard(docwalk.cursor_advance, ctx, cfg, fs, 'K.cursor', r'render_console$|Doc::first_line$')
+        ctx.guard(docwalk.payload_writers, ctx, cfg, fs, 'K.cursor')
         import c12
         ctx.guard(c12.embedders, ctx, cfg, fs, 'K.skip-pairing')
         ctx.guard(docwalk.block_pairing, ctx, cfg, fs, 'K.skip-pairing', r'impl buffer::Doc>::render_console$', [('skip', r'buffer::Skip::push$', r'buffer::Skip::pop$')])
